@@ -176,7 +176,39 @@ func (r *Runner) VamanaPair(a, b *shard.Shard, p Prop, what string) {
 	if !ok {
 		return
 	}
-	r.TW.Emit("VamanaPair", M{"p": p.Name, "vec": avec, "limit": limit, "ss": ss, "a": ha, "b": hb, "what": what, "tol": tolFor(p.Metric)})
+	r.TW.Emit("VamanaPair", M{"p": p.Name, "vec": avec, "limit": limit, "ss": ss, "a": ha, "b": hb, "what": what, "tol": tolFor(p.Metric), "quant": b2i(r.Cfg.Quantised)})
+}
+
+// FlatPair issues the same flat search on two instances holding the same
+// committed data in different cache states (C04: warm = cold; used where the
+// model cannot compute the distance itself: trained quantisers).
+func (r *Runner) FlatPair(a, b *shard.Shard, p Prop, leaves []Q, what string) {
+	vec, avec := r.G.vec(p.Dim, p.Metric)
+	limit := r.limit()
+	f, af := r.rankFilter(leaves)
+	run := func(sh *shard.Shard) ([]M, bool) {
+		var fc *models.Query
+		if f != nil {
+			c := copyQuery(*f)
+			fc = &c
+		}
+		q := models.Query{Property: p.Name, VectorFlat: &models.SearchVectorFlatOptions{Vector: append([]float32{}, vec...), Operator: models.OperatorNear, Limit: limit, Filter: fc}}
+		res, err := sh.SearchPoints(models.SearchRequest{Query: q, Limit: 100000})
+		if err != nil {
+			r.obsErr("FlatPair", err)
+			return nil, false
+		}
+		return r.hits(res, 1000)
+	}
+	ha, ok := run(a)
+	if !ok {
+		return
+	}
+	hb, ok := run(b)
+	if !ok {
+		return
+	}
+	r.TW.Emit("FlatPair", M{"p": p.Name, "vec": avec, "limit": limit, "filter": af, "a": ha, "b": hb, "what": what})
 }
 
 // TextQuery issues one text search.
